@@ -376,7 +376,8 @@ func (d *Decoder) unmarshal(val reflect.Value, tagType byte) error {
 			return errors.New("list length less than 0")
 		}
 		if listType == TagEnd && listLen > 0 {
-			return ErrEND
+			// not ErrEND: that one means "the document is a bare TagEnd" (packet.NBTField maps it to "no value")
+			return errors.New("list of TagEnd with a length greater than 0")
 		}
 
 		// If we need parse TAG_List into slice, make a new with right length.
